@@ -294,6 +294,13 @@ done:
 static ares_status_t config_search(ares_sysconfig_t *sysconfig, const char *str,
                                    size_t max_domains)
 {
+  /* A value made of separators only names no domain.  ares_strsplit() returns
+   * NULL for it just as it does when out of memory, which used to abort the
+   * processing of the whole configuration; such a line configures nothing. */
+  if (str[strspn(str, ", ")] == 0) {
+    return ARES_SUCCESS;
+  }
+
   if (sysconfig->domains && sysconfig->ndomains > 0) {
     /* if we already have some domains present, free them first */
     ares_strsplit_free(sysconfig->domains, sysconfig->ndomains);
